@@ -7,11 +7,13 @@ import (
 
 // ---- small AST constructors ----
 
-func vr(n string) Expr                { return VarRef{n} }
-func il(v int64) Expr                 { return IntLit{v} }
-func bl(v bool) Expr                  { return BoolLit{v} }
-func sl(v string) Expr                { return StrLit{V: v} }
-func def(name string, e Expr) Stmt    { return VarDecl{Names: []string{name}, Short: true, Values: []Expr{e}} }
+func vr(n string) Expr { return VarRef{n} }
+func il(v int64) Expr  { return IntLit{v} }
+func bl(v bool) Expr   { return BoolLit{v} }
+func sl(v string) Expr { return StrLit{V: v} }
+func def(name string, e Expr) Stmt {
+	return VarDecl{Names: []string{name}, Short: true, Values: []Expr{e}}
+}
 func set(name string, e Expr) Stmt    { return Assign{[]string{name}, []Expr{e}} }
 func pr(args ...Expr) Stmt            { return Print{args} }
 func ifs(c Expr, body ...Stmt) Stmt   { return If{Branches: []IfBranch{{c, body}}} }
@@ -220,44 +222,44 @@ func f3LastStatement() []BashCase {
 	loopBrk := For{Kind: ForEver, Body: []Stmt{Break{}}}
 	loopCond := For{Kind: ForCond, Cond: cmp(">", vr("x"), il(0)), Body: []Stmt{IncDec{"x", false}}}
 	lasts := map[string][]Stmt{
-		"assign-zero":      {set("x", il(0))},
-		"assign-false":     {set("b", bl(false))},
-		"assign-empty":     {set("s", sl(""))},
-		"dec":              {IncDec{"x", false}},
-		"inc":              {IncDec{"x", true}},
-		"opassign-to-zero": {OpAssign{"x", "-", il(3)}},
-		"mod-zero-result":  {OpAssign{"x", "%", il(3)}},
-		"decl-default":     {VarDecl{Names: []string{"z"}, Type: TInt}},
-		"decl-false-cmp":   {def("z", cmp("<", vr("x"), il(1)))},
-		"decl-false-logic": {def("z", logic("&&", vr("b"), bl(true)))},
-		"decl-not":         {def("z", Not{bl(true)})},
-		"decl-concat":      {def("z", bin("+", vr("s"), sl("")))},
-		"if-not-taken":     {ifs(vr("b"), pr(il(1)))},
-		"if-taken":         {ifs(Not{vr("b")}, pr(il(1)))},
+		"assign-zero":           {set("x", il(0))},
+		"assign-false":          {set("b", bl(false))},
+		"assign-empty":          {set("s", sl(""))},
+		"dec":                   {IncDec{"x", false}},
+		"inc":                   {IncDec{"x", true}},
+		"opassign-to-zero":      {OpAssign{"x", "-", il(3)}},
+		"mod-zero-result":       {OpAssign{"x", "%", il(3)}},
+		"decl-default":          {VarDecl{Names: []string{"z"}, Type: TInt}},
+		"decl-false-cmp":        {def("z", cmp("<", vr("x"), il(1)))},
+		"decl-false-logic":      {def("z", logic("&&", vr("b"), bl(true)))},
+		"decl-not":              {def("z", Not{bl(true)})},
+		"decl-concat":           {def("z", bin("+", vr("s"), sl("")))},
+		"if-not-taken":          {ifs(vr("b"), pr(il(1)))},
+		"if-taken":              {ifs(Not{vr("b")}, pr(il(1)))},
 		"if-taken-false-inside": {ifs(Not{vr("b")}, set("b", bl(false)))},
-		"if-else":          {If{Branches: []IfBranch{{vr("b"), []Stmt{pr(il(1))}}}, HasElse: true, Else: []Stmt{set("x", il(0))}}},
-		"if-elseif-none":   {If{Branches: []IfBranch{{vr("b"), []Stmt{pr(il(1))}}, {cmp(">", vr("x"), il(5)), []Stmt{pr(il(2))}}}}},
-		"empty-if":         {If{Branches: []IfBranch{{Not{vr("b")}, nil}}}},
-		"loop-zero-iter":   {loop0},
-		"loop-break":       {loopBrk},
-		"loop-cond-ends":   {loopCond},
-		"switch-no-match":  {Switch{Tag: vr("x"), Cases: []SwitchCase{{E: il(1), Body: []Stmt{pr(il(1))}}}}},
-		"switch-match":     {Switch{Tag: vr("x"), Cases: []SwitchCase{{E: il(3), Body: []Stmt{set("x", il(0))}}}}},
-		"switch-empty":     {Switch{Tag: vr("x")}},
-		"switch-default":   {Switch{Cases: []SwitchCase{{Default: true, Body: []Stmt{set("b", bl(false))}}}}},
-		"print":            {pr(vr("x"))},
-		"print-empty":      {pr()},
-		"print-false":      {pr(bl(false))},
-		"print-emptystr":   {pr(sl(""))},
-		"itoa":             {def("z", Itoa{vr("x")})},
-		"panic-top":        {Panic{sl("boom")}, pr(sl("not reached"))},
-		"panic-in-if":      {ifs(Not{vr("b")}, Panic{sl("in if")}), pr(sl("not reached"))},
-		"panic-in-else":    {If{Branches: []IfBranch{{vr("b"), []Stmt{pr(il(1))}}}, HasElse: true, Else: []Stmt{Panic{sl("in else")}}}, pr(sl("not reached"))},
-		"panic-in-loop":    {For{Kind: ForThree, Init: def("i", il(0)), Cond: cmp("<", vr("i"), il(3)), Post: IncDec{"i", true}, Body: []Stmt{pr(vr("i")), ifs(cmp("==", vr("i"), il(1)), Panic{bin("+", sl("at "), Itoa{vr("i")})})}}, pr(sl("not reached"))},
-		"panic-in-switch":  {Switch{Tag: vr("x"), Cases: []SwitchCase{{E: il(3), Body: []Stmt{Panic{vr("s")}}}}}, pr(sl("not reached"))},
-		"panic-nested":     {For{Kind: ForCond, Cond: bl(true), Body: []Stmt{ifs(bl(true), Switch{Cases: []SwitchCase{{Default: true, Body: []Stmt{Panic{sl("deep")}}}}})}}},
-		"panic-not-taken":  {ifs(vr("b"), Panic{sl("never")})},
-		"panic-int-msg":    {Panic{Itoa{vr("x")}}},
+		"if-else":               {If{Branches: []IfBranch{{vr("b"), []Stmt{pr(il(1))}}}, HasElse: true, Else: []Stmt{set("x", il(0))}}},
+		"if-elseif-none":        {If{Branches: []IfBranch{{vr("b"), []Stmt{pr(il(1))}}, {cmp(">", vr("x"), il(5)), []Stmt{pr(il(2))}}}}},
+		"empty-if":              {If{Branches: []IfBranch{{Not{vr("b")}, nil}}}},
+		"loop-zero-iter":        {loop0},
+		"loop-break":            {loopBrk},
+		"loop-cond-ends":        {loopCond},
+		"switch-no-match":       {Switch{Tag: vr("x"), Cases: []SwitchCase{{E: il(1), Body: []Stmt{pr(il(1))}}}}},
+		"switch-match":          {Switch{Tag: vr("x"), Cases: []SwitchCase{{E: il(3), Body: []Stmt{set("x", il(0))}}}}},
+		"switch-empty":          {Switch{Tag: vr("x")}},
+		"switch-default":        {Switch{Cases: []SwitchCase{{Default: true, Body: []Stmt{set("b", bl(false))}}}}},
+		"print":                 {pr(vr("x"))},
+		"print-empty":           {pr()},
+		"print-false":           {pr(bl(false))},
+		"print-emptystr":        {pr(sl(""))},
+		"itoa":                  {def("z", Itoa{vr("x")})},
+		"panic-top":             {Panic{sl("boom")}, pr(sl("not reached"))},
+		"panic-in-if":           {ifs(Not{vr("b")}, Panic{sl("in if")}), pr(sl("not reached"))},
+		"panic-in-else":         {If{Branches: []IfBranch{{vr("b"), []Stmt{pr(il(1))}}}, HasElse: true, Else: []Stmt{Panic{sl("in else")}}}, pr(sl("not reached"))},
+		"panic-in-loop":         {For{Kind: ForThree, Init: def("i", il(0)), Cond: cmp("<", vr("i"), il(3)), Post: IncDec{"i", true}, Body: []Stmt{pr(vr("i")), ifs(cmp("==", vr("i"), il(1)), Panic{bin("+", sl("at "), Itoa{vr("i")})})}}, pr(sl("not reached"))},
+		"panic-in-switch":       {Switch{Tag: vr("x"), Cases: []SwitchCase{{E: il(3), Body: []Stmt{Panic{vr("s")}}}}}, pr(sl("not reached"))},
+		"panic-nested":          {For{Kind: ForCond, Cond: bl(true), Body: []Stmt{ifs(bl(true), Switch{Cases: []SwitchCase{{Default: true, Body: []Stmt{Panic{sl("deep")}}}}})}}},
+		"panic-not-taken":       {ifs(vr("b"), Panic{sl("never")})},
+		"panic-int-msg":         {Panic{Itoa{vr("x")}}},
 	}
 	cases := []BashCase{}
 	for _, name := range sortedStmtKeys(lasts) {
@@ -394,8 +396,8 @@ func f5Switch() []BashCase {
 		caseE func(i int) Expr
 	}
 	kinds := []tagKind{
-		{"int-var", TInt, func() Expr { return vr("x") }, func(t int) []Stmt { return []Stmt{def("x", il(int64(10 + t)))} }, func(i int) Expr { return il(int64(10 + i)) }},
-		{"int-computed", TInt, func() Expr { return bin("+", vr("x"), il(1)) }, func(t int) []Stmt { return []Stmt{def("x", il(int64(9 + t))), def("y", il(5))} }, func(i int) Expr { return bin("+", vr("y"), il(int64(5+i))) }},
+		{"int-var", TInt, func() Expr { return vr("x") }, func(t int) []Stmt { return []Stmt{def("x", il(int64(10+t)))} }, func(i int) Expr { return il(int64(10 + i)) }},
+		{"int-computed", TInt, func() Expr { return bin("+", vr("x"), il(1)) }, func(t int) []Stmt { return []Stmt{def("x", il(int64(9+t))), def("y", il(5))} }, func(i int) Expr { return bin("+", vr("y"), il(int64(5+i))) }},
 		{"string-var", TString, func() Expr { return vr("s") }, func(t int) []Stmt {
 			if t < 0 {
 				return []Stmt{def("s", sl("none"))}
@@ -438,18 +440,18 @@ func f6Definitions() []BashCase {
 	progs := map[string][]Stmt{
 		"defaults": {VarDecl{Names: []string{"a"}, Type: TInt}, VarDecl{Names: []string{"b"}, Type: TBool}, VarDecl{Names: []string{"s"}, Type: TString}, VarDecl{Names: []string{"e"}, Type: TString, ErrTy: true},
 			pr(vr("a"), vr("b"), sl("["+""), vr("s"), sl("]"), cmp("==", vr("e"), NilLit{}), cmp("==", vr("s"), sl("")))},
-		"multi-default":  {VarDecl{Names: []string{"a", "b", "c"}, Type: TInt}, VarDecl{Names: []string{"p", "q"}, Type: TBool}, pr(vr("a"), vr("b"), vr("c"), vr("p"), vr("q"))},
-		"multi-typed":    {VarDecl{Names: []string{"a", "b"}, Type: TInt, Values: []Expr{il(1), il(2)}}, VarDecl{Names: []string{"s", "t"}, Type: TString, Values: []Expr{sl("x"), sl("y z")}}, pr(vr("a"), vr("b"), vr("s"), vr("t"))},
-		"var-untyped":    {VarDecl{Names: []string{"a"}, Values: []Expr{il(5)}}, VarDecl{Names: []string{"b"}, Values: []Expr{cmp("<", vr("a"), il(9))}}, VarDecl{Names: []string{"s"}, Values: []Expr{bin("+", sl("n="), Itoa{vr("a")})}}, pr(vr("a"), vr("b"), vr("s"))},
-		"var-untyped-multi": {VarDecl{Names: []string{"x", "y"}, Values: []Expr{il(1), bl(true)}}, pr(vr("x"), vr("y"))},
-		"short-multi":    {VarDecl{Names: []string{"a", "s", "b"}, Short: true, Values: []Expr{il(1), sl("two"), bl(true)}}, pr(vr("a"), vr("s"), vr("b"))},
-		"short-partial":  {VarDecl{Names: []string{"a", "b"}, Short: true, Values: []Expr{il(1), il(2)}}, VarDecl{Names: []string{"a", "c"}, Short: true, Values: []Expr{il(3), il(4)}}, VarDecl{Names: []string{"d", "b"}, Short: true, Values: []Expr{il(5), il(6)}}, pr(vr("a"), vr("b"), vr("c"), vr("d"))},
-		"short-partial-in-block": {ifs(bl(true), VarDecl{Names: []string{"a", "b"}, Short: true, Values: []Expr{il(1), il(2)}}, VarDecl{Names: []string{"a", "c"}, Short: true, Values: []Expr{bin("+", vr("b"), il(10)), bin("*", vr("b"), il(7))}}, pr(vr("a"), vr("b"), vr("c")))},
+		"multi-default":              {VarDecl{Names: []string{"a", "b", "c"}, Type: TInt}, VarDecl{Names: []string{"p", "q"}, Type: TBool}, pr(vr("a"), vr("b"), vr("c"), vr("p"), vr("q"))},
+		"multi-typed":                {VarDecl{Names: []string{"a", "b"}, Type: TInt, Values: []Expr{il(1), il(2)}}, VarDecl{Names: []string{"s", "t"}, Type: TString, Values: []Expr{sl("x"), sl("y z")}}, pr(vr("a"), vr("b"), vr("s"), vr("t"))},
+		"var-untyped":                {VarDecl{Names: []string{"a"}, Values: []Expr{il(5)}}, VarDecl{Names: []string{"b"}, Values: []Expr{cmp("<", vr("a"), il(9))}}, VarDecl{Names: []string{"s"}, Values: []Expr{bin("+", sl("n="), Itoa{vr("a")})}}, pr(vr("a"), vr("b"), vr("s"))},
+		"var-untyped-multi":          {VarDecl{Names: []string{"x", "y"}, Values: []Expr{il(1), bl(true)}}, pr(vr("x"), vr("y"))},
+		"short-multi":                {VarDecl{Names: []string{"a", "s", "b"}, Short: true, Values: []Expr{il(1), sl("two"), bl(true)}}, pr(vr("a"), vr("s"), vr("b"))},
+		"short-partial":              {VarDecl{Names: []string{"a", "b"}, Short: true, Values: []Expr{il(1), il(2)}}, VarDecl{Names: []string{"a", "c"}, Short: true, Values: []Expr{il(3), il(4)}}, VarDecl{Names: []string{"d", "b"}, Short: true, Values: []Expr{il(5), il(6)}}, pr(vr("a"), vr("b"), vr("c"), vr("d"))},
+		"short-partial-in-block":     {ifs(bl(true), VarDecl{Names: []string{"a", "b"}, Short: true, Values: []Expr{il(1), il(2)}}, VarDecl{Names: []string{"a", "c"}, Short: true, Values: []Expr{bin("+", vr("b"), il(10)), bin("*", vr("b"), il(7))}}, pr(vr("a"), vr("b"), vr("c")))},
 		"redefine-in-sibling-blocks": {ifs(bl(true), def("t", il(1)), pr(vr("t"))), ifs(bl(true), def("t", sl("str")), pr(vr("t"))), def("t", bl(true)), pr(vr("t"))},
-		"loop-body-redefinition": {For{Kind: ForThree, Init: def("i", il(0)), Cond: cmp("<", vr("i"), il(3)), Post: IncDec{"i", true}, Body: []Stmt{VarDecl{Names: []string{"z"}, Type: TInt}, pr(vr("z")), set("z", bin("+", vr("i"), il(5))), pr(vr("z"))}}},
-		"error-nil":      {VarDecl{Names: []string{"e"}, Type: TString, ErrTy: true}, pr(cmp("==", vr("e"), NilLit{})), set("e", sl("failed")), pr(cmp("!=", vr("e"), NilLit{}), vr("e")), set("e", NilLit{}), pr(cmp("==", vr("e"), NilLit{}))},
-		"string-compound": {def("s", sl("a")), OpAssign{"s", "+", sl("b")}, OpAssign{"s", "+", vr("s")}, pr(vr("s"), cmp("==", vr("s"), sl("abab")), cmp("!=", vr("s"), sl("abab")))},
-		"bool-ops":       {def("t", bl(true)), def("f", bl(false)), pr(cmp("==", vr("t"), vr("f")), cmp("!=", vr("t"), vr("f")), cmp("==", vr("f"), vr("f")), Not{vr("t")}, Not{vr("f")})},
+		"loop-body-redefinition":     {For{Kind: ForThree, Init: def("i", il(0)), Cond: cmp("<", vr("i"), il(3)), Post: IncDec{"i", true}, Body: []Stmt{VarDecl{Names: []string{"z"}, Type: TInt}, pr(vr("z")), set("z", bin("+", vr("i"), il(5))), pr(vr("z"))}}},
+		"error-nil":                  {VarDecl{Names: []string{"e"}, Type: TString, ErrTy: true}, pr(cmp("==", vr("e"), NilLit{})), set("e", sl("failed")), pr(cmp("!=", vr("e"), NilLit{}), vr("e")), set("e", NilLit{}), pr(cmp("==", vr("e"), NilLit{}))},
+		"string-compound":            {def("s", sl("a")), OpAssign{"s", "+", sl("b")}, OpAssign{"s", "+", vr("s")}, pr(vr("s"), cmp("==", vr("s"), sl("abab")), cmp("!=", vr("s"), sl("abab")))},
+		"bool-ops":                   {def("t", bl(true)), def("f", bl(false)), pr(cmp("==", vr("t"), vr("f")), cmp("!=", vr("t"), vr("f")), cmp("==", vr("f"), vr("f")), Not{vr("t")}, Not{vr("f")})},
 	}
 	cases := []BashCase{}
 	for _, k := range sortedStmtKeys(progs) {
